@@ -156,7 +156,7 @@ package server
 //@   guard-call sepis: "Join" arg(1) == ", "
 //@   guard-call sep:   "Join" forall(k, 0, len(arg(0)), !contains(arg(0)[k], ", "))
 // C10/C16: the row is written under the listener's name, with the protocol of its kind
-//@   guard-call row: "ListenerAdd" argis(1, "Name") && arg(2) == ite(Type == handlers.LISTENER_HTTP, handlers.AGENT_HTTP, ite(Type == handlers.LISTENER_PIVOT_SMB, handlers.AGENT_PIVOT_SMB, handlers.AGENT_EXTERNAL))
+//@   guard-call row: "ListenerAdd#1" argis(1, "Name") && arg(2) == ite(Type == handlers.LISTENER_HTTP, handlers.AGENT_HTTP, ite(Type == handlers.LISTENER_PIVOT_SMB, handlers.AGENT_PIVOT_SMB, handlers.AGENT_EXTERNAL))
 
 // C16: an edit reaches the running listener object itself (the one requests are served from),
 // for the listener with that name and for no other.
